@@ -64,7 +64,7 @@ class Registry:
         self.bases = {}         # class name -> [base names]
 
     def add(self, c):
-        sub = c.tag or c.stmt or ('-'.join(c.block) if c.block else '')
+        sub = c.tag or c.stmt or ('-'.join(str(b) for b in c.block) if c.block else '')
         key = c.target + (f'@{sub}' if sub else '')
         c.key = key
         self.contracts[key] = c
